@@ -91,18 +91,18 @@ manifest file and every blob that manifest names, byte for byte. -/
 theorem crash_safe {hash : Bytes → Digest} {env : Env} (henv : EnvOK hash env) {st : Store}
     (hinv : Inv hash st) (op : Op) (hop : OpOK hash st op) (p : List Effect)
     (hp : CrashPrefix (op.exec env st).effs p) :
-    NameInv hash (restart (run p st)) ∧
-    Inv hash (restart (run p st)) ∧
-    ∀ n, n ∉ op.involved → Untouched n st (restart (run p st)) := by
+    NameInv hash (restartWith env (run p st)) ∧
+    Inv hash (restartWith env (run p st)) ∧
+    ∀ n, n ∉ op.involved → Untouched n st (restartWith env (run p st)) := by
   have hseq := exec_seqOK henv hinv op hop
   have hpOK : SeqOK hash st p := seqOK_crashPrefix hseq hp
   have hinv1 : Inv hash (run p st) := StoreCrash.seq_preserves_inv hinv hpOK
-  have hinv2 : Inv hash (restart (run p st)) := StoreCrash.restart_preserves_inv hinv1
+  have hinv2 : Inv hash (restartWith env (run p st)) := StoreCrash.restartWith_preserves_inv env hinv1
   refine ⟨hinv2.nameInv, hinv2, ?_⟩
   intro n hn
   have hw : ∀ e ∈ (op.exec env st).effs, ¬ writesMan e n :=
     fun e he hwm => hn (manOnly_exec env op st e he n hwm)
-  exact (seq_untouched hinv hpOK (crashPrefix_writes hp hw)).trans (StoreCrash.restart_untouched n _)
+  exact (seq_untouched hinv hpOK (crashPrefix_writes hp hw)).trans (StoreCrash.restartWith_untouched env n _)
 
 /-! ## the fixed variant (`env.atomicMan`: manifests written by temp + rename, C12-F19a) -/
 
@@ -111,16 +111,16 @@ restart every manifest FILE is either exactly as it was before the operation or 
 completed operation leaves it: the model being replaced by create/copy/pull is never lost. -/
 theorem atomic_manifest_old_or_new {env : Env} (hat : env.atomicMan = true) (op : Op) (st : Store)
     (p : List Effect) (hp : CrashPrefix (op.exec env st).effs p) (n : Name) :
-    get (restart (run p st)) (.man n) = get st (.man n) ∨
-    get (restart (run p st)) (.man n) = get (run (op.exec env st).effs st) (.man n) := by
-  rw [(StoreCrash.restart_untouched n (run p st)).1]
+    get (restartWith env (run p st)) (.man n) = get st (.man n) ∨
+    get (restartWith env (run p st)) (.man n) = get (run (op.exec env st).effs st) (.man n) := by
+  rw [(StoreCrash.restartWith_untouched env n (run p st)).1]
   exact old_or_new (amo_exec env hat op st) hp n
 
 /-- **Fixed variant: no crash ever tears a manifest.**  If `Manifests(false)` succeeds before the
 operation it succeeds after any crash of it (so the start-up prune is never disabled by a crash). -/
 theorem atomic_never_torn {env : Env} (hat : env.atomicMan = true) (op : Op) (st : Store)
     (hall : allReadable st = true) (p : List Effect) (hp : CrashPrefix (op.exec env st).effs p) :
-    allReadable (restart (run p st)) = true := by
+    allReadable (restartWith env (run p st)) = true := by
   rw [allReadable_iff] at hall ⊢
   intro n c hg
   rcases atomic_manifest_old_or_new hat op st p hp n with h | h
@@ -138,7 +138,7 @@ with its old manifest or with the manifest the completed operation gives it. -/
 theorem atomic_replaced_model_kept {env : Env} (hat : env.atomicMan = true) (op : Op) (st : Store)
     (hall : allReadable st = true) (p : List Effect) (hp : CrashPrefix (op.exec env st).effs p)
     (n : Name) (mo : Man) (hr : readable st n = some mo) (hdel : op ≠ .delete n) :
-    ∃ m, readable (restart (run p st)) n = some m ∧
+    ∃ m, readable (restartWith env (run p st)) n = some m ∧
       (m = mo ∨ readable (run (op.exec env st).effs st) n = some m) := by
   have hold : get st (.man n) = some (.man mo) := readable_eq_some.mp hr
   rcases atomic_manifest_old_or_new hat op st p hp n with h | h
@@ -168,13 +168,13 @@ compared with the real rerun at every crash point (L1) and the clause is monitor
 theorem rerun_converges_partial {hash : Bytes → Digest} {env : Env} (henv : EnvOK hash env)
     (hat : env.atomicMan = true) {st : Store} (hinv : Inv hash st) (op : Op) (hg : rerunGuard op = true)
     (p : List Effect) (hp : CrashPrefix (op.exec env st).effs p) :
-    (∀ n, get (run (op.exec env (restart (run p st))).effs (restart (run p st))) (.man n) =
+    (∀ n, get (run (op.exec env (restartWith env (run p st))).effs (restartWith env (run p st))) (.man n) =
           get (run (op.exec env st).effs st) (.man n)) ∧
-    Inv hash (run (op.exec env (restart (run p st))).effs (restart (run p st))) := by
+    Inv hash (run (op.exec env (restartWith env (run p st))).effs (restartWith env (run p st))) := by
   have hop : ∀ st', OpOK hash st' op := by intro st'; cases op <;> first | trivial | simp [rerunGuard] at hg
   have hcs := crash_safe henv hinv op (hop st) p hp
   refine ⟨?_, StoreCrash.seq_preserves_inv hcs.2.1 (exec_seqOK henv hcs.2.1 op (hop _))⟩
-  generalize hst1 : restart (run p st) = st1 at hcs ⊢
+  generalize hst1 : restartWith env (run p st) = st1 at hcs ⊢
   -- each manifest file of the restarted store is the old one or the one of the completed operation
   have G : ∀ n, get st1 (.man n) = get st (.man n) ∨
       get st1 (.man n) = get (run (op.exec env st).effs st) (.man n) := by
@@ -235,12 +235,12 @@ the repeated pull equals the one after an uninterrupted pull from the original s
 theorem rerun_converges_pull_partial {env : Env} (hat : env.atomicMan = true)
     (reg : Digest → Option Bytes) (n : Name) (m : Man) (st : Store) (p : List Effect)
     (hp : CrashPrefix ((Op.pull reg n m).exec env st).effs p)
-    (hok : ((Op.pull reg n m).exec env (restart (run p st))).ok = ((Op.pull reg n m).exec env st).ok) :
-    ∀ n', get (run ((Op.pull reg n m).exec env (restart (run p st))).effs (restart (run p st))) (.man n') =
+    (hok : ((Op.pull reg n m).exec env (restartWith env (run p st))).ok = ((Op.pull reg n m).exec env st).ok) :
+    ∀ n', get (run ((Op.pull reg n m).exec env (restartWith env (run p st))).effs (restartWith env (run p st))) (.man n') =
           get (run ((Op.pull reg n m).exec env st).effs st) (.man n') := by
   intro n'
   have G := atomic_manifest_old_or_new hat (.pull reg n m) st p hp n'
-  generalize restart (run p st) = st1 at G hok ⊢
+  generalize restartWith env (run p st) = st1 at G hok ⊢
   simp only [Op.exec] at G hok ⊢
   rw [pull_final env hat] at G
   rw [pull_final env hat, pull_final env hat, hok]
